@@ -35,6 +35,12 @@ func (r RawTime) Value() (t time.Time, valid bool) {
 	if err != nil {
 		return
 	}
+	// An HTTP-date is in GMT in all three of its forms. The rfc850 layout of the
+	// parser takes any zone abbreviation and reads one it does not know ("JST") as
+	// if it were GMT: such a value is not a date this cache can rely on.
+	if name, offset := parsedTime.Zone(); offset != 0 || (name != "GMT" && name != "UTC") {
+		return time.Time{}, false
+	}
 	return parsedTime, true
 }
 
